@@ -187,6 +187,9 @@ func replayDir(id string) string {
 		root = "/verif"
 	}
 	d := filepath.Join(root, "replay", id)
+	if alt := os.Getenv("VERIF_REPLAY_ROOT"); alt != "" {
+		d = filepath.Join(alt, id)
+	}
 	_ = os.MkdirAll(d, 0o755)
 	return d
 }
